@@ -17,19 +17,36 @@ LEVEL_TEXT = ("Every declaration (sequence of required items and at-least-one gr
               "members, plus every optional list) x every component type x every outcome vector of the leaves x enabled/disabled "
               "is built with the real decorators and run through dr.run; invocation, the identity and order of positional "
               "arguments, missing-requirement reports / rule skip responses and the enable switch (incl. apply_default_enabled / "
-              "apply_configs name-prefix matching) are compared with a 40-line reference. Complete within the stated bounds.")
+              "apply_configs name-prefix matching) are compared with a 40-line reference. Part 'dag': EVERY dependency DAG over "
+              "<= 5 (quick) / 6 (thorough) components (every node depends on any subset of the earlier ones: chains, fans, diamonds, "
+              "shared dependencies that have dependencies of their own ...), edges uniformly required / one at-least-one group / "
+              "optional, all-value plus every single deviating node, both iteration orders of the engine's dependency sets, is "
+              "evaluated through every entry point that BUILDS the graph from targets (dr.run(target), dr.run([targets]), "
+              "dr.run(get_dependency_graph(..)), run_incremental / run_all) and compared node by node with the same reference. "
+              "Complete within the stated bounds.")
 LEVEL_NOTE = ("Bounded: <= 3 leaves, <= 2 (quick) / 3 (thorough) declaration items, chains of depth 2. A dependency that returns None "
               "counts as having produced a value (documented for conditions); datasource/parser calling conventions are checked in their "
               "documented form (broker / first dependency), not the positional sentence.")
 RULE = ("focus component over 3 leaves: all declaration sequences x optional lists x 7 component types x leaf outcome vectors; "
         "plus depth-2 chains, class-level requires/optional, enable/disable configurations. A case is non-trivial when at least one "
-        "leaf produced no value and the focus declares it (so firing / reporting is actually decided by the rule under test)")
+        "leaf produced no value and the focus declares it (so firing / reporting is actually decided by the rule under test). "
+        "Part dag: all DAG shapes (node i depends on any subset of nodes < i; targets = the nodes nothing depends on) x edge kind "
+        "x type palette x {all value, one node skip / disabled} x hash order x graph-building entry point; non-trivial when the "
+        "shape has a shared dependency (a node with >= 2 dependents)")
 ASSUMPTIONS = ["reference evaluator harness/graphs.py:ref_eval encodes the documented dr semantics",
                "None return value counts as a produced value (weaker reading of the statement)"]
 # "zero": the leaf produces the falsy value 0 - a value all the same (added after a seeded change that bound falsy
 # values as None showed every generated value was truthy)
-BOUNDS = {"quick": {"leaves": 3, "max_items": 2, "leaf_outcomes": ["value", "skip", "none", "zero", "disabled"]},
-          "thorough": {"leaves": 3, "max_items": 3, "leaf_outcomes": ["value", "skip", "none", "zero", "disabled", "content", "error"]}}
+BOUNDS = {"quick": {"leaves": 3, "max_items": 2, "leaf_outcomes": ["value", "skip", "none", "zero", "disabled"],
+                    "dag": {"max_nodes": 5, "edge_kinds": {"req": 5, "group": 4, "opt": 4}, "palettes": ["plain", "mixed"],
+                            "deviations": ["skip", "disabled"], "hash_orders": ["index", "reversed (shapes with a shared dependency)"],
+                            "entries": ["run-target", "run-list", "graph-of"]}},
+          "thorough": {"leaves": 3, "max_items": 3, "leaf_outcomes": ["value", "skip", "none", "zero", "disabled", "content", "error"],
+                       "dag": {"max_nodes": 6, "edge_kinds": {"req": 6, "group": 5, "opt": 5},
+                               "palettes": ["plain", "component", "combiner", "condition", "mixed"] ,
+                               "deviations": ["skip", "disabled", "error", "none"], "hash_orders": ["index", "reversed"],
+                               "entries": ["run-target", "run-list", "graph-of", "incremental", "run-all"],
+                               "note": "6 nodes: palette plain, required edges, deviation skip only"}}}
 CAP_S = {"quick": 300, "thorough": 3000}
 
 SINGLES = [0, 1, 2]
@@ -79,11 +96,124 @@ def units(tier, seed):
     for k in range(9):
         us.append({"part": "class-level", "shard": k})
     us.append({"part": "configs"})
+    us.extend(dag_units(tier))
     return us
 
 
 def unit_weight(u):
+    if u["part"] == "dag":
+        return 4 if u["n"] >= 5 else 1
     return 3 if u["part"] == "focus" else 1
+
+
+# ---- part "dag": every small dependency DAG, evaluated through the doors that build the graph from targets ---------
+
+DAG = {"quick": {"kinds": {"req": 5, "group": 4, "opt": 4}, "palettes": ["plain", "mixed"], "dev": ["skip", "disabled"],
+                 "entries": ["run-target", "run-list", "graph-of"], "rev": "shared", "big": None},
+       "thorough": {"kinds": {"req": 5, "group": 5, "opt": 5}, "palettes": ["plain", "component", "combiner", "condition", "mixed"],
+                    "dev": ["skip", "disabled", "error", "none"],
+                    "entries": ["run-target", "run-list", "graph-of", "incremental", "run-all"], "rev": "all",
+                    "big": {"n": 6, "kinds": ["req"], "palettes": ["plain"], "dev": ["skip"]}}}
+
+
+def dag_shapes(n):
+    """All DAGs over n nodes in topological index order: node i depends on any subset of the nodes < i (as sorted lists)."""
+    per_node = [[[j for j in range(i) if m >> j & 1] for m in range(1 << i)] for i in range(n)]
+    return [list(t) for t in itertools.product(*per_node)]
+
+
+def dag_units(tier):
+    cfg = DAG[tier]
+    us = []
+    for pal in cfg["palettes"]:
+        us.append({"part": "dag", "n": 0, "palette": pal, "shard": 0, "of": 1})       # n = 0: all shapes over 1..4 nodes
+        for i in range(8):
+            us.append({"part": "dag", "n": 5, "palette": pal, "shard": i, "of": 8})
+    if cfg["big"]:
+        for pal in cfg["big"]["palettes"]:
+            for i in range(64):
+                us.append({"part": "dag", "n": cfg["big"]["n"], "palette": pal, "shard": i, "of": 64})
+    return us
+
+
+def dag_types(shape, palette):
+    if palette != "mixed":
+        return [palette] * len(shape)
+    # mixed: as in a real rule set - sources are plain components, inner nodes combiners / conditions, targets rules
+    depended = set(j for deps in shape for j in deps)
+    out = []
+    for i, deps in enumerate(shape):
+        if i not in depended:
+            out.append("rule")
+        elif not deps:
+            out.append("component")
+        else:
+            out.append("combiner" if i % 2 else "condition")
+    return out
+
+
+def dag_case(shape, kind, palette, dev, rev, entry):
+    types = dag_types(shape, palette)
+    nodes = []
+    for i, deps in enumerate(shape):
+        nd = {"t": types[i], "decl": [], "out": "value"}
+        if deps:
+            if kind == "req":
+                nd["decl"] = list(deps)
+            elif kind == "group":
+                nd["decl"] = [list(deps)]
+            else:
+                nd["opt"] = list(deps)
+        if dev is not None and dev[0] == i:
+            if dev[1] == "disabled":
+                nd["en"] = False
+            else:
+                nd["out"] = dev[1]
+        nodes.append(nd)
+    depended = set(j for deps in shape for j in deps)
+    case = {"kind": "graph", "nodes": nodes, "targets": [i for i in range(len(shape)) if i not in depended], "entry": entry}
+    if rev:
+        case["hashes"] = list(range(len(shape) - 1, -1, -1))
+    return case
+
+
+def _shared(shape):
+    cnt = {}
+    for deps in shape:
+        for j in deps:
+            cnt[j] = cnt.get(j, 0) + 1
+    return any(v >= 2 for v in cnt.values())
+
+
+def run_dag_unit(unit, tier):
+    res = Result()
+    cfg = DAG[tier]
+    pal = unit["palette"]
+    big = cfg["big"] if cfg["big"] and unit["n"] == cfg["big"]["n"] else None
+    sizes = [1, 2, 3, 4] if unit["n"] == 0 else [unit["n"]]
+    for n in sizes:
+        shapes = [s for k, s in enumerate(dag_shapes(n)) if k % unit["of"] == unit["shard"]]
+        kinds = big["kinds"] if big else [k for k in ("req", "group", "opt") if cfg["kinds"][k] >= n]
+        devkinds = big["dev"] if big else cfg["dev"]
+        for shape in shapes:
+            shared = _shared(shape)
+            nedges = sum(len(d) for d in shape)
+            nsinks = n - len(set(j for deps in shape for j in deps))
+            for kind in kinds:
+                if kind != "req" and not nedges:
+                    continue                      # without edges the edge kind is no variation
+                devs = [None] + [(i, d) for i in range(n) for d in devkinds]
+                for dev in devs:
+                    for rev in (False, True):
+                        # the reversed hash order only matters where a set holds >= 2 components
+                        if rev and (nedges < 2 or (cfg["rev"] == "shared" and not shared)):
+                            continue
+                        for entry in cfg["entries"]:
+                            if entry == "run-target" and nsinks != 1:
+                                continue
+                            case = dag_case(shape, kind, pal, dev, rev, entry)
+                            _run(res, case, nontrivial=shared, tag="%s/%s" % (entry, kind))
+    return res
 
 
 # ---- the checker ---------------------------------------------------------------------------
@@ -93,15 +223,30 @@ def check_graph_case(case):
     from insights.core import dr
     from harness import graphs as G
     desc = case
-    g = G.Graph(desc)
+    # "hashes": forced hash per node = the iteration order of the engine's dependency sets (owned, part of the case)
+    g = G.Graph(desc, hashes=case.get("hashes"))
     out = []
     try:
         names = [c.__name__ for c in g.nodes]
         targets = case.get("targets") or [len(g.nodes) - 1]
-        graph = g.dep_graph(targets)
         broker = g.make_broker()
+        # "entry": the public door through which the graph is BUILT FROM THE TARGETS and evaluated
+        entry = case.get("entry") or "graph-of"
+        tnodes = [g.nodes[t] for t in targets]
         try:
-            dr.run(graph, broker)
+            if entry == "graph-of":
+                dr.run(g.dep_graph(targets), broker)            # dr.run(dr.get_dependency_graph(t) [merged over targets])
+            elif entry == "run-target":
+                dr.run(tnodes[0], broker)                       # a single component: the graph is built for you
+            elif entry == "run-list":
+                dr.run(tnodes, broker)                          # a list of components
+            elif entry == "incremental":
+                for _ in dr.run_incremental(tnodes, broker):    # one evaluation per connected sub-graph, same broker
+                    pass
+            elif entry == "run-all":
+                dr.run_all(tnodes, broker)
+            else:
+                raise ValueError(entry)
         except Exception as ex:
             return [("run:raises", "dr.run returns", repr(ex))]
         in_graph = G.closure(desc, targets)
@@ -368,6 +513,8 @@ def run_unit(unit, tier):
     res = Result()
     b = BOUNDS[tier]
     part = unit["part"]
+    if part == "dag":
+        return run_dag_unit(unit, tier)
     if part == "focus":
         ft = unit["type"]
         ds = decls(b["max_items"])
@@ -446,14 +593,17 @@ def run_unit(unit, tier):
     raise ValueError(part)
 
 
-def _run(res, case):
+def _run(res, case, nontrivial=None, tag=None):
     try:
         vio = check_graph_case(case)
     except Exception as ex:
         import traceback
         vio = [("harness:raises", "no exception", traceback.format_exc()[-800:])]
     oc = case.pop("_outcome", "?")
-    res.case(nontrivial=_nontrivial(case), outcome="g:%s|%s" % (",".join(sorted(set(v[0] for v in vio))), oc),
+    if tag:
+        oc = "%s|%s" % (tag, oc.split(":args=")[0])
+    res.case(nontrivial=_nontrivial(case) if nontrivial is None else nontrivial,
+             outcome="g:%s|%s" % (",".join(sorted(set(v[0] for v in vio))), oc),
              sample=case if (res.evals % 5000 == 17) else None)
     for v in vio:
         res.violation(v[0], case, v[1], v[2])
